@@ -127,6 +127,32 @@ func runOwn1(m *Model, r *RuleResult) {
 				ok = true
 			}
 		}
+		// a method of the type's own package that writes through its receiver / parameters (`func (l *Layer) FitHeight()`) acts for
+		// whoever calls it: the write appears in every caller's summary (via the callee) and is judged there
+		if !ok && a.pkg == "internal/graph" && len(a.via) == 0 {
+			if callers, acts := own1ActsForCallers(m, a.fn, a.loc, 0); acts {
+				var offenders []string
+				for _, c := range callers {
+					okC := false
+					for _, p := range allowed {
+						if p == c.pkg {
+							okC = true
+						}
+					}
+					if !okC {
+						offenders = append(offenders, c.fn+" (package "+c.pkg+") at "+c.pos)
+					}
+				}
+				if len(offenders) == 0 {
+					r.add(Obligation{Key: "write:" + k, Pos: a.pos, Desc: fmt.Sprintf("%s written in %s through its receiver or parameters on behalf of its %d caller(s), all in packages that may mutate it", a.loc, a.fn, len(callers)), Verdict: "holds", Control: a.ctl})
+				} else {
+					sort.Strings(offenders)
+					r.add(Obligation{Key: "write:" + k, Pos: a.pos, Desc: a.loc + " written in " + a.fn + " on behalf of its callers", Verdict: "violation",
+						Detail: "field-ownership discipline of the pipeline broken: only " + strings.Join(allowed, ", ") + " may mutate it; it is mutated through " + a.fn + " by " + strings.Join(offenders, "; "), Control: a.ctl})
+				}
+				continue
+			}
+		}
 		desc := fmt.Sprintf("%s written in %s (%d mutation(s), %d construction store(s))", a.loc, a.fn, a.mut, a.fresh)
 		if len(a.via) > 0 {
 			var v []string
@@ -171,4 +197,66 @@ func runOwn1(m *Model, r *RuleResult) {
 	} else {
 		r.undecided("NewEdge:Delta=1", "-", "constructor internal/graph.NewEdge", "anchor not found")
 	}
+}
+
+// own1ActsForCallers: the function (by key) is a top-level function of internal/graph whose direct writes to loc all go through
+// its receiver or a parameter: it acts for whoever calls it. Returns the callers outside internal/graph (callers inside it that
+// act for their own callers are followed, depth <= 3).
+type own1Caller struct{ fn, pkg, pos string }
+
+func own1ActsForCallers(m *Model, fnKey, loc string, depth int) ([]own1Caller, bool) {
+	var f *ssa.Function
+	for _, g := range m.Src {
+		if funcKey(g) == fnKey {
+			f = g
+		}
+	}
+	if f == nil || f.Parent() != nil || depth > 3 {
+		return nil, false
+	}
+	if depth == 0 {
+		for _, w := range m.effects[f].Writes {
+			if w.Loc != loc || w.Via != "" {
+				continue
+			}
+			rooted := false
+			for _, o := range originsOf(w.Base, 0) {
+				if o.Kind == "param" || o.Kind == "paramderef" {
+					rooted = true
+				} else if o.Kind == "fieldload" || o.Kind == "fieldaddr" {
+					for _, o2 := range originsOf(o.Base, 0) {
+						if o2.Kind == "param" {
+							rooted = true
+						}
+					}
+				}
+			}
+			if !rooted {
+				return nil, false
+			}
+		}
+	}
+	var out []own1Caller
+	n := 0
+	for _, g := range m.Src {
+		if g == f || !inModule(g) {
+			continue
+		}
+		for _, site := range staticCalls(g, func(c *ssa.Function) bool { return c == f }) {
+			n++
+			top := g
+			for top.Parent() != nil {
+				top = top.Parent()
+			}
+			if shortPkg(pkgPathOf(g)) == "internal/graph" && top.Parent() == nil {
+				if more, ok := own1ActsForCallers(m, funcKey(top), loc, depth+1); ok {
+					out = append(out, more...)
+					continue
+				}
+			}
+			out = append(out, own1Caller{funcKey(g), shortPkg(pkgPathOf(g)), m.Pos(site.Pos())})
+		}
+	}
+	// a method that is only ever called dynamically (through an interface or a method value) has unknown callers
+	return out, n > 0
 }
